@@ -26,6 +26,7 @@ func init() {
 
 func runFill(m *model.Model, s *ob.Set) {
 	const R = "FILL"
+	runCopyRest(m, s)
 	for _, fn := range m.Funcs {
 		if !m.InDecimalPkg(fn) || len(fn.Blocks) == 0 || fn.Synthetic != "" {
 			continue
@@ -234,4 +235,82 @@ func restDefined(m *model.Model, fn *ssa.Function, b *ssa.BasicBlock, sl ssa.Val
 		b = b.Succs[0]
 	}
 	return false
+}
+
+// runCopyRest: a carry-propagating kernel that stops early — the carry was absorbed, the remaining
+// words are copied unchanged (copy(z[i+1:], x[i+1:])) — has no carry left to report: what it
+// returns on that exit is the constant 0, or a value the enclosing test has just found to be 0.
+func runCopyRest(m *model.Model, s *ob.Set) {
+	const R = "FILL"
+	for _, fn := range m.Funcs {
+		if !m.InDecimalPkg(fn) || len(fn.Blocks) == 0 || !inKernelLayer(m, fn) || fn.Synthetic != "" {
+			continue
+		}
+		if fn.Signature.Results().Len() != 1 || !m.IsWord(fn.Signature.Results().At(0).Type()) {
+			continue
+		}
+		live := m.Live(fn)
+		n := 0
+		bad := ""
+		for _, b := range fn.Blocks {
+			if !live[b.Index] {
+				continue
+			}
+			r, ok := b.Instrs[len(b.Instrs)-1].(*ssa.Return)
+			if !ok || len(r.Results) != 1 {
+				continue
+			}
+			// a copy of the rest in this block (or the single-predecessor chain leading to it)
+			copied := false
+			for blk, hops := b, 0; blk != nil && hops < 3; hops++ {
+				for _, in := range blk.Instrs {
+					if c, ok := in.(*ssa.Call); ok && model.BuiltinName(&c.Call) == "copy" {
+						if d, ok := c.Call.Args[0].(*ssa.Slice); ok && d.Low != nil && m.IsWordSlice(d.Type()) {
+							if sl, ok := c.Call.Args[1].(*ssa.Slice); ok && sl.Low != nil {
+								copied = true
+							}
+						}
+					}
+				}
+				if len(blk.Preds) != 1 {
+					break
+				}
+				blk = blk.Preds[0]
+			}
+			if !copied {
+				continue
+			}
+			n++
+			v := r.Results[0]
+			// spilled named result: look at the value last stored
+			if k, ok := model.ConstInt(v); ok && k == 0 {
+				continue
+			}
+			zero := false
+			isV := func(x ssa.Value) bool { return stripConv(x) == stripConv(v) }
+			for _, gb := range fn.Blocks {
+				if len(gb.Instrs) == 0 {
+					continue
+				}
+				ifi, ok := gb.Instrs[len(gb.Instrs)-1].(*ssa.If)
+				if !ok {
+					continue
+				}
+				bo, ok := ifi.Cond.(*ssa.BinOp)
+				if !ok {
+					continue
+				}
+				if e, ok := zeroOnEdge(bo, isV); ok && m.EdgeDominates(gb, e, b) {
+					zero = true
+				}
+			}
+			if !zero {
+				bad = fmt.Sprintf("%s: the exit that copies the remaining words unchanged returns %s, which is neither the constant 0 nor a value just tested to be 0", m.InstrPos(r), exprKey(m, v, 3))
+			}
+		}
+		if n == 0 {
+			continue
+		}
+		s.Check(bad == "", R, fn.Name()+"/copy-rest", m.Pos(fn.Pos()), fmt.Sprintf("%d early exit(s) that copy the rest, each returning a carry of 0", n), bad+": the carry was absorbed (that is why the rest is copied), a non-zero return makes the caller add it once more")
+	}
 }
